@@ -166,4 +166,25 @@ theorem isolation_forced_counterexample :
 
 end phase2
 
+
+/-! ## phase 3: failures are local -/
+
+/-- the interactions table row by row: exactly the numbered rows of the listed triples whose evaluation (alone,
+pristine learner) does not raise, under their first-appearance ids — in every configuration and schedule -/
+theorem interactions_exact (c : Comps S P Row) (cfg : Cfg) (picks : List Nat) (seed : Nat) (ts : List Triple)
+    (k : Key3) (i : Nat) (row : Row) :
+    (k, i, row) ∈ (run c cfg picks seed ts).ints ↔
+      ∃ t ∈ ts, ∃ rows, evalS c seed t = .ok rows ∧ k = idKey ts t ∧ (i, row) ∈ numbered rows :=
+  mem_ints_iff' c cfg picks seed ts k i row
+
+/-- `failure_local`: for any triple list and whatever set of its triples fails (wherever the exception is raised
+inside the evaluation: `eval` is arbitrary), in every configuration and schedule the Result holds exactly the rows
+of the non-failing triples, each row being a row of that triple's alone run (under any configuration) -/
+theorem failure_local (c : Comps S P Row) (cfg cfg' : Cfg) (picks picks' : List Nat) (seed : Nat) (ts : List Triple)
+    (k : Key3) (i : Nat) (row : Row) :
+    (k, i, row) ∈ (run c cfg picks seed ts).ints ↔
+      ∃ t ∈ ts, (∃ rows, evalS c seed t = .ok rows) ∧ k = idKey ts t ∧
+        (i, row) ∈ (run c cfg' picks' seed [t]).rowsOf (0, 0, 0) :=
+  failure_local' c cfg picks seed ts cfg' picks' k i row
+
 end Coba.C03
